@@ -29,6 +29,9 @@ DRIVERS = {
     'smc-quant': ('smc', 'M1c', 2, 3, {'quantiles': [0.5, 0.5]}),
     'smc-thr3': ('smc', 'M1c', 2, 2, {'thresholds': [2.0, 1.0, 0.6]}),
     'adsmc': ('adsmc', 'Madapt', 2, 2, {'rounds': 2, 'quantile': 0.5}),
+    # adaptive-threshold SMC: the density-ratio fit needs >= 100 particles, so batches are large (the schedule tree
+    # depends on the number of batches only)
+    'atsmc': ('atsmc', 'M1c', 100, 100, {'max_iter': 2}),
     'rej-nsim-8b': ('rej', 'M1', 1, 3, {'n_sim': 8}),
     'rej-thr-8b': ('rej', 'M1', 1, 3, {'threshold': 0.5}),
 }
@@ -55,6 +58,9 @@ def make_body(case):
         elif kind == 'adsmc':
             s = elfi.AdaptiveDistanceSMC(m, dname, output_names=list(extras), batch_size=bs, seed=seed,
                                          max_parallel_batches=mpb)
+        elif kind == 'atsmc':
+            s = elfi.AdaptiveThresholdSMC(m, dname, output_names=list(extras), batch_size=bs, seed=seed,
+                                          max_parallel_batches=mpb, q_threshold=0.9)
         else:
             s = elfi.SMC(m, dname, output_names=list(extras), batch_size=bs, seed=seed,
                          max_parallel_batches=mpb)
@@ -76,7 +82,7 @@ def make_body(case):
         obs = {
             'outputs': out, 'threshold': res.threshold, 'n_sim': res.n_sim, 'n_batches': res.n_batches,
         }
-        if kind in ('smc', 'adsmc'):
+        if kind in ('smc', 'adsmc', 'atsmc'):
             obs['pops'] = [({k: np.asarray(v) for k, v in p.outputs.items()}, np.asarray(p.weights), p.threshold,
                             p.n_sim, np.asarray(p.cov)) for p in res.populations]
             obs['weights'] = np.asarray(res.weights)
@@ -319,7 +325,7 @@ def explore_in_waves(ctx, case, split_levels=2, section='unpruned-wave-trees'):
 
 # (lowest, highest) number of batches the sequential run of a driver may consume for a seed to be used
 BATCH_WINDOW = {'rej-thr': (2, 5), 'rej-thr-rare': (3, 6), 'smc-thr': (4, 9), 'smc-quant': (4, 6), 'smc-thr3': (4, 6),
-                'adsmc': (4, 9), 'rej-thr-8b': (6, 8)}
+                'adsmc': (4, 9), 'rej-thr-8b': (6, 8), 'atsmc': (7, 11)}
 
 # The size of a schedule tree depends on how many batches the seeded run consumes (threshold objectives: on the draws), so
 # it grows by orders of magnitude for some seeds.  Every tree has an execution cap; a tree that hits it is reported as
@@ -379,6 +385,8 @@ def run(ctx):
     # adaptive-distance SMC (the distance node of the sampler's model adapts between rounds)
     for mpb in (1, 2) if q else (1, 2, 3):
         cases.append({'kind': 'tree', 'driver': 'adsmc', 'mpb': mpb, 'seed': seed0, 'prune': True})
+    # adaptive-threshold SMC (each execution fits density ratios, ~0.4 s): one pruned tree in the quick tier
+    cases.append({'kind': 'tree', 'driver': 'atsmc', 'mpb': 2, 'seed': seed0, 'prune': True, 'max_executions': 1500})
     # cores decide when max_parallel_batches is not given
     for d in ('rej-nsim', 'rej-thr'):
         for cores in (1, 2, 3):
@@ -403,6 +411,10 @@ def run(ctx):
             for s in (seed0 + 1, seed0 + 2):
                 cases.append({'kind': 'tree', 'driver': d, 'mpb': 3, 'seed': s, 'prune': True})
             cases.append({'kind': 'tree', 'driver': d, 'mpb': 3, 'seed': seed0, 'prune': True, 'iso': 'pickled'})
+        # adaptive-threshold SMC (each execution fits density ratios: ~0.5 s), pruned trees
+        for mpb in (1, 3):
+            cases.append({'kind': 'tree', 'driver': 'atsmc', 'mpb': mpb, 'seed': seed0, 'prune': True,
+                          'max_executions': 1500})
         for d in ('smc-thr', 'smc-quant'):
             cases.append({'kind': 'tree', 'driver': d, 'mpb': 2, 'seed': seed0, 'prune': False, 'bound': 4})
             cases.append({'kind': 'tree', 'driver': d, 'mpb': 3, 'seed': seed0, 'prune': False, 'bound': 3,
@@ -481,7 +493,7 @@ def run(ctx):
         '(shared) and pickled isolation; no task failures',
         'visited-state pruning merges executions whose canonical (sampler, client, pending call) state is equal; '
         'cross-checked against the unpruned tree for mpb=2 drivers (same outcome sets)',
-        'AdaptiveDistanceSMC is explored with one driver; AdaptiveThresholdSMC and the dask/ipyparallel clients are not',
+        'AdaptiveDistanceSMC is explored with one driver, AdaptiveThresholdSMC with one driver (100 particles, batches of 100, 2 rounds; mpb 2 in quick, 1-3 in thorough); the dask/ipyparallel clients are not',
         'result equality is bitwise on outputs, thresholds, n_sim, n_batches and SMC population tables',
         'seeds: the k-th seed of a driver is the k-th seed >= 1000*VERIF_SEED+3 whose sequential run consumes a number of '
         'batches inside the window of the driver (coverage.batch_window_by_driver; chosen seeds in coverage.seeds_by_driver): '
